@@ -9,6 +9,7 @@ NOTE = ("trusted: go/ssa's translation, the engine's instruction semantics and i
         "against the natively compiled code), z3 4.8.12 / z3 5.1.0 / cvc5 1.0, the ES5 oracles in /verif/harness; bounds, stubs and what lies outside the claim are listed in the evidence file")
 
 TEXT = {
+ "C01": "only a template family is decided, not the quantifier over programs: 8 fixed program templates covering switch fall-through, labelled break/continue, try/catch/finally completion, hoisting and closures, this-binding, the arguments object, with, direct/indirect eval, statement completion values and uncaught-exception classes are run through the real interpreter with their control data (discriminants, loop bounds, branch conditions, operands, this-values) symbolic, by each of the five submission routes, and the recorded host-call sequence, completion value and error class are asserted against a Go transcription of each template; programs outside the templates are outside the claim",
  "C02": "bounded symbolic execution of built-ins under the real catchPanic with symbolic argument payloads: every implicit Go panic site (index, slice bound, nil dereference, type assertion) is a solver query over all doubles / short byte strings; decides that no Go run-time panic crosses the API boundary within the stated receiver/argument shapes",
  "C03": "bounded symbolic execution of the real parser on templates whose operator/literal bytes are symbolic; the tree shape or literal value is asserted against an ES5 precedence / literal-value oracle for every byte assignment",
  "C04": "bounded symbolic execution of the real lexer+parser+ast.Walk on fully symbolic source bytes (every byte string up to the bound, and statement templates with symbolic holes): panic-freedom, error positions inside the input, node spans, Walk contract",
@@ -48,7 +49,7 @@ m = {
  "engines": [{"name": "symgo", "path": "/verif/engine", "serves_properties": sorted(checks.keys()),
               "kind_free_text": "symbolic executor for go/ssa written for this task (path-wise exploration, SMT-LIB2 to persistent z3 / z3 5.1 / cvc5 processes, model reuse, native replay of solver models through go test -overlay)"}],
  "checks": [],
- "not_applicable": [{"property_id": p, "reason": r} for p, r in NA],
+ "not_applicable": [{"property_id": p, "reason": r} for p, r in NA if p not in checks],
  "notes": "fix: commits in /repo and their originating counterexamples are recorded in /verif/known_findings.json; DESIGN.md explains bounds and stubs per property.",
 }
 claimed = set()
